@@ -60,6 +60,16 @@ def _impl(tier, seed, search):
             L.close(f'normsq[len={ln_}]', b.normsq(vl), float(np.dot(vl, vl)), T9, float(np.max(np.abs(vl))) ** 2, dict(v=vl), sig=f'normsq:len{ln_}')
             L.close(f'norm(list)[len={ln_}]', b.norm(list(vl)), float(np.linalg.norm(vl)), T9, float(np.max(np.abs(vl))), dict(v=vl), sig=f'norm:len{ln_}')
         L.check('colvec', b.colvec(a).shape == (3, 1) and np.array_equal(b.colvec(a).flatten(), a), dict(v=a), 'colvec is not the column form')
+        # unitvec / unitvec_norm are v/|v| (and |v|) for every non-zero vector — small ones too (differential motions go down to 1e-9 and below)
+        for ln_ in (1, 3, 6):
+            vu = g.normal(size=ln_) * 10.0 ** g.uniform(-12, 6); nu = float(np.linalg.norm(vu))
+            if nu < 1e-13: continue
+            ok, r = L.noraise(f'unitvec[len={ln_}]', lambda: (b.unitvec(vu), b.unitvec_norm(vu)), dict(v=vu), 'unitvec / unitvec_norm', sig='unitvec:raises')
+            if ok:
+                if r[0] is None or r[1] is None: L.check('unitvec', False, dict(v=vu), f'unitvec / unitvec_norm returned None for a vector of norm {nu:.3g}', sig='unitvec:none')
+                else:
+                    L.close('unitvec', r[0], vu / nu, 1e-12, 1.0, dict(v=vu)); L.close('unitvec_norm:vector', r[1][0], vu / nu, 1e-12, 1.0, dict(v=vu), sig='unitvec_norm')
+                    L.close('unitvec_norm:norm', float(r[1][1]), nu, 1e-12, nu, dict(v=vu), sig='unitvec_norm')
         # adjoint
         T1 = inputs.se3(g, 3); T2 = inputs.se3(g, 3); S = np.r_[g.normal(size=3), g.normal(size=3)]
         tsc = max(1.0, geom.tmag(T1), geom.tmag(T2), geom.tmag(T1 @ T2))
